@@ -160,12 +160,22 @@ func c14Run(job string) {
 		} else {
 			sym.Assert(false, "list-eq-length-defined")
 		}
-		r3 := eval(mustGen(fg, "[a0,a1].map(x->x)=[b0,b1].reverse().reverse()", "a0", "a1", "b0", "b1"), a0, a1, b0, b1)
-		if b3, ok := boolOf(r3); ok && r.ok() {
-			rb, _ := boolOf(r)
-			sym.Assert(sym.Iff(b3, rb), "list-eq-representation")
-		} else {
-			sym.Assert(false, "list-eq-representation-defined")
+		// the same two lists in other representations (lazy, concatenated, sized/unsized, evaluated) compare alike
+		for _, form := range []string{
+			"[a0,a1].map(x->x)=[b0,b1].reverse().reverse()",
+			"([a0].accept(x->true)+[a1])=[b0,b1]",
+			"[b0,b1]=([a0]+[a1].accept(x->true))",
+			"([a0].map(x->x)+[a1].map(x->x))=[b0].append(b1)",
+			"[a0,a1,a0].top(2)=[b1,b0,b1].skip(1)",
+			"[a0,a1].eval()=numbers(2).map(i->if i=0 then b0 else b1)",
+		} {
+			r3 := eval(mustGen(fg, form, "a0", "a1", "b0", "b1"), a0, a1, b0, b1)
+			if b3, ok := boolOf(r3); ok && r.ok() {
+				rb, _ := boolOf(r)
+				sym.Assert(sym.Iff(b3, rb), "list-eq-representation:"+form)
+			} else {
+				sym.Assert(false, "list-eq-representation-defined:"+form)
+			}
 		}
 	case "mapeq":
 		a, b := mk(fg, kinds[0], "a"), mk(fg, kinds[1], "b")
